@@ -240,7 +240,7 @@ def interpretHeaders (cfg : Cfg) (hs : List (Bytes × Bytes)) : Except Err HdrIn
   let upgradeHdr := getHeader hs bUpgrade
   let upgrade := toks.contains bUpgrade && (match upgradeHdr with | some u => !u.isEmpty | none => false)
   let enc := (getHeader hs bContentEncoding).getD []
-  let encoding := if isAscii enc && encodings.contains (lower enc) then some enc else none
+  let encoding := if isAscii enc && encodings.contains (lower enc) then some (lower enc) else none
   match getHeader hs bTransferEncoding with
   | none => .ok { headers := hs, close, encoding, upgrade, chunked := false }
   | some te =>
@@ -412,12 +412,13 @@ def sepLen (lax : Bool) : Nat := if lax then 1 else 2
 def isBytesWs (b : UInt8) : Bool := b == 32 || (9 ≤ b.toNat && b.toNat ≤ 13)
 
 /-- the value of a chunk-size line (the bytes before its separator): size digits up to the
-first `;`, the extension may not contain LF, lax mode strips whitespace around the digits;
+first `;`, the extension may not contain LF (nor, when lines end in CRLF, a bare CR), lax mode
+strips whitespace around the digits;
 `none` = TransferEncodingError -/
 def chunkSizeOf (cfg : Cfg) (line : Bytes) : Option Nat :=
   let (sizeB, extBad) :=
     match findByte 59 line with
-    | some i => (line.take i, (line.drop i).any (· == 10))
+    | some i => (line.take i, (line.drop i).any (fun b => b == 10 || (!cfg.lax && b == 13)))
     | none => (line, false)
   if extBad then none else
   let sizeB := if cfg.lax then strip isBytesWs sizeB else sizeB
